@@ -343,6 +343,7 @@ pub fn capiget_record(tw: &mut Twin, c: &Obs) -> String {
         format!("I{}", ed.intervals().map(|i| format!("{}:{}:{}", i.start, i.end, i.is_phrase as u8)).collect::<Vec<_>>().join(",")),
         format!("{:?}", ed.last_key_behavior()),
         options_numbers(&ed.editor_options()),
+        format!("P{}", ed.symbols().iter().filter_map(|s| s.to_syllable()).map(|s| s.to_u16().to_string()).collect::<Vec<_>>().join(",")),
     ];
     let m = &c.modes;
     let legacy = [m[0], m[1], m[3], m[4], m[5], m[6], m[7], m[8], m[9], m[10], m[11]];
@@ -377,6 +378,11 @@ pub fn capiget_record(tw: &mut Twin, c: &Obs) -> String {
         format!("list_has_prev={}", c.has_prev),
         format!("intervals=I{}", c.intervals.iter().map(|(a, b)| format!("{}:{}", a, b)).collect::<Vec<_>>().join(",")),
         format!("modes={}", legacy.iter().map(|n| n.to_string()).collect::<Vec<_>>().join(",")),
+        format!("zuin_Check={}", c.zuin_check),
+        format!("zuin_String={}", hx(&c.zuin)),
+        format!("zuin_count={}", c.zuin_count),
+        format!("phoneSeqLen={}", c.phone_len),
+        format!("phoneSeq=P{}", c.phone.iter().map(|n| n.to_string()).collect::<Vec<_>>().join(",")),
     ];
     format!("capiget obs {} => {}", facts.join(" "), vals.join(" "))
 }
